@@ -10,7 +10,7 @@ from props import geolib as G
 
 PROPERTY = 'C05'
 LEVEL = 'exploration'
-RULE = ('Hypothesis point sets (2-40 points) from labelled families: clusters, seam clusters, near-polar, all-sky, '
+RULE = ('Hypothesis point sets (2-40 points) from labelled families: clusters, seam clusters, near-polar, exactly-on-a-pole, all-sky, '
         'half-chunk lattices, shuffled chains with 0.7-1.1 linking-length steps along RA / Dec / diagonals crossing many '
         'chunks, several filaments / bending polylines that meet, persistent lattice random walks of 30-80 points (hooked, branched chains labelled in different chunks and merged late); bounded-exhaustive sub-check: every subset (>=2 points) of a 3x3 lattice with pitch '
         '0.9 or 1.1 linking lengths at seam / chunk-corner / polar anchors.  Linking length 10^U(-3.5,1.2) deg, chunksize None or '
@@ -121,7 +121,7 @@ def case_strategy(draw):
         pts = draw(randomwalk(L))
     else:
         pts = draw(G.point_sets(L, nmin=2, nmax=40, two_lists=False,
-                                families=['cluster', 'seam', 'seam', 'polar', 'allsky', 'lattice', 'chain', 'chain', 'chain']))
+                                families=['cluster', 'seam', 'seam', 'polar', 'pole-exact', 'allsky', 'lattice', 'chain', 'chain', 'chain']))
     if pts['family'] == 'allsky':
         L = max(L, 0.5)
     if draw(st.integers(0, 12)) == 0:
